@@ -402,7 +402,7 @@ def public_rdp_oracle(c):
         one = np.atleast_1d(R.compute_rdp(q=c["q"], noise_multiplier=c["sigma"], steps=1, orders=o)).astype(float)
         many = np.atleast_1d(R.compute_rdp(q=c["q"], noise_multiplier=c["sigma"], steps=c["steps"], orders=o)).astype(float)
     except Exception:
-        return None
+        one = many = []          # which order makes it raise is settled per order below
     for a, x, y in zip(c["orders"], one, many):
         if math.isfinite(x) and not core.close(y, x * c["steps"], 1e-9, 1e-300):
             return ("C06:compose-by-addition", f"compute_rdp(q={c['q']}, sigma={c['sigma']}, steps={c['steps']}, orders={'scalar ' if c['scalar'] else ''}{a}) = {y}, "
@@ -639,6 +639,8 @@ def replay(ctx, rp):
     res = None
     if "history" in fi:
         res = history_oracle({"history": [tuple(x) for x in fi["history"]], "delta": fi["delta"], "alphas": fi.get("alphas", rp.get("alphas"))})
+    elif "q" in fi and "orders" in fi and "steps" in fi:
+        res = public_rdp_oracle(fi)
     elif "q" in fi and "alpha" in fi:
         res = triple_oracle({"q": fi["q"], "sigma": fi["sigma"], "alpha": float(fi["alpha"])})
     elif "sample_rate" in fi:
@@ -646,7 +648,10 @@ def replay(ctx, rp):
         res = history_oracle({"history": [(fi["noise_multiplier"], q, fi["epochs"] * math.ceil(1 / q))], "delta": fi["delta"], "alphas": fi["alphas"]})
     else:
         res = conversion_oracle()
-    if res:
+    known = {f["key"] for f in ctx.findings if f.get("status") == "known"}
+    if res and res[0] in known:
+        print("KNOWN-FINDING (reproduced):", res[0], res[1])
+    elif res:
         print("REPRODUCED:", res[0], res[1])
         ctx.violations.append(res[0])
     else:
